@@ -236,7 +236,7 @@ impl Acc {
             out.evaluations += a.evaluations;
             out.nontrivial.extend(a.nontrivial);
             for s in a.samples {
-                if out.samples.len() < 10 {
+                if out.samples.len() < 10 && !out.samples.contains(&s) {
                     out.samples.push(s);
                 }
             }
